@@ -1,6 +1,7 @@
 package dkgcheck
 
 import (
+	"os"
 	"verif/harness/dkgsys"
 	"verif/harness/ev"
 )
@@ -20,6 +21,11 @@ func Jobs(run *ev.Run, prop string) []Job {
 		j := q(p, n, t, dealer, byz, d)
 		j.BoundedOrder, j.Reorder = true, reorder
 		return j
+	}
+	if os.Getenv("VERIF_DKG_ONLY") == "jf3pc" { // development: one job only
+		j := q(dkgsys.JF, 3, 1, 0, []int{0}, 2)
+		j.PlusComplaint = true
+		return []Job{j}
 	}
 	if !run.Thorough() {
 		return []Job{
@@ -45,7 +51,7 @@ func Jobs(run *ev.Run, prop string) []Job {
 		q(dkgsys.FVSSQ, 4, 2, 0, []int{0}, 2),
 		q(dkgsys.FVSSQ, 4, 2, 0, []int{0, 1}, 1), // dealer colluding with a receiver
 		q(dkgsys.FVSSQ, 5, 2, 0, []int{0, 4}, 1),
-		q(dkgsys.JF, 3, 1, 0, []int{0}, 2),
+		func() Job { j := q(dkgsys.JF, 3, 1, 0, []int{0}, 2); j.PlusComplaint = true; return j }(),
 		q(dkgsys.JF, 3, 1, 0, []int{1}, 1),
 		q(dkgsys.JF, 3, 1, 0, []int{2}, 1),
 		b(dkgsys.JF, 4, 1, 0, []int{0}, 2, 2),
